@@ -6,7 +6,7 @@ package collect
 
 //@ spec clientRate(r uint) uint := ite(r == 0, 1, r)
 
-//@ contract collect.mergeTraceAndSpanSampleRates props C04,C05
+//@ contract collect.mergeTraceAndSpanSampleRates props C04,C05,C16
 //@   requires sp != nil && sp.Event != nil
 //@   requires old(sp.SampleRate) < 1<<31
 //@   requires 1 <= traceSampleRate && traceSampleRate < 1<<32
@@ -15,7 +15,9 @@ package collect
 //@   ensures[dryrun-rate] dryRunMode ==> sp.SampleRate == clientRate(old(sp.SampleRate))
 //@   ensures[orig-meta-set] old(sp.SampleRate) != 0 ==> toInt(sp.Data.MetaRefineryOriginalSampleRate) == toInt(old(sp.SampleRate))
 //@   ensures[orig-meta-kept] old(sp.SampleRate) == 0 ==> sp.Data.MetaRefineryOriginalSampleRate == old(sp.Data.MetaRefineryOriginalSampleRate)
-//@   modifies sp.SampleRate, sp.Data
+//@   ensures[generic-fields] forall k string :: k != "meta.dryrun.sample_rate" ==> in(sp.Data.memoizedFields, k) == in(old(sp.Data.memoizedFields), k) && sp.Data.memoizedFields[k] == old(sp.Data.memoizedFields)[k]
+//@   ensures[generic-fields-untouched-outside-dry-run] !dryRunMode ==> sp.Data.memoizedFields == old(sp.Data.memoizedFields)
+//@   modifies sp.SampleRate, sp.Data.MetaRefineryOriginalSampleRate, sp.Data.MetaRefineryFinalSampleRate, sp.Data.memoizedFields
 
 // ---- C10: stress-relief deterministic sampling
 
@@ -41,6 +43,75 @@ package collect
 
 //@ lemma C10.stress-nested-keep props C10 : forall id string, m uint64, n uint64 :: 1 <= m && m <= n && keepStress(id, n) ==> keepStress(id, m)
 //@ lemma C10.stress-rate1-keeps-all props C10 : forall id string :: keepStress(id, 1) && keepStress(id, 0)
+
+// ---- C16: a span of a trace first seen under stress relief is decided on the spot by the
+// deterministic rule, the decision is recorded, and a kept span goes upstream exactly once,
+// marked meta.stressed, with key / dataset / host as they came in.
+//@ contract collect.(*InMemCollector).getWorkerIDForTrace props C16 function
+//@   requires i != nil && len(i.workers) > 0
+//@   ensures[index-in-range] 0 <= result && result < len(i.workers)
+//@   modifies nothing
+//@ contract types.(*Trace).SetSampleRate inline
+//@ contract collect.(*InMemCollector).addAdditionalAttributes props C16,C06
+//@   requires i != nil && sp != nil && sp.Event != nil
+//@   let attrs = i.Config.GetAdditionalAttributes()
+//@   domain[additional-attributes-are-user-fields] attrsAreUserFields(attrs)
+//@   ensures[dedicated-fields-untouched] sp.Data.MetaStressed == old(sp.Data.MetaStressed) && sp.Data.MetaRefineryProbe == old(sp.Data.MetaRefineryProbe) && sp.Data.MetaRefineryLocalHostname == old(sp.Data.MetaRefineryLocalHostname) && sp.Data.MetaRefineryReason == old(sp.Data.MetaRefineryReason) && sp.Data.MetaRefinerySendReason == old(sp.Data.MetaRefinerySendReason) && sp.Data.MetaRefinerySampleKey == old(sp.Data.MetaRefinerySampleKey) && sp.Data.MetaSpanCount == old(sp.Data.MetaSpanCount) && sp.Data.MetaSpanEventCount == old(sp.Data.MetaSpanEventCount) && sp.Data.MetaSpanLinkCount == old(sp.Data.MetaSpanLinkCount) && sp.Data.MetaEventCount == old(sp.Data.MetaEventCount) && sp.Data.MetaRefineryOriginalSampleRate == old(sp.Data.MetaRefineryOriginalSampleRate) && sp.Data.MetaRefineryFinalSampleRate == old(sp.Data.MetaRefineryFinalSampleRate) && sp.Data.MetaTraceID == old(sp.Data.MetaTraceID)
+//@   ensures[every-attribute-set] forall k string :: in(attrs, k) ==> in(sp.Data.memoizedFields, k) && isString(sp.Data.memoizedFields[k]) && anyString(sp.Data.memoizedFields[k]) == attrs[k]
+//@   ensures[other-fields-kept] forall k string :: !in(attrs, k) ==> in(sp.Data.memoizedFields, k) == in(old(sp.Data.memoizedFields), k) && sp.Data.memoizedFields[k] == old(sp.Data.memoizedFields)[k]
+//@   loop 1 invariant[dedicated] sp.Data.MetaStressed == old(sp.Data.MetaStressed) && sp.Data.MetaRefineryProbe == old(sp.Data.MetaRefineryProbe) && sp.Data.MetaRefineryLocalHostname == old(sp.Data.MetaRefineryLocalHostname) && sp.Data.MetaRefineryReason == old(sp.Data.MetaRefineryReason) && sp.Data.MetaRefinerySendReason == old(sp.Data.MetaRefinerySendReason) && sp.Data.MetaRefinerySampleKey == old(sp.Data.MetaRefinerySampleKey) && sp.Data.MetaSpanCount == old(sp.Data.MetaSpanCount) && sp.Data.MetaSpanEventCount == old(sp.Data.MetaSpanEventCount) && sp.Data.MetaSpanLinkCount == old(sp.Data.MetaSpanLinkCount) && sp.Data.MetaEventCount == old(sp.Data.MetaEventCount) && sp.Data.MetaRefineryOriginalSampleRate == old(sp.Data.MetaRefineryOriginalSampleRate) && sp.Data.MetaRefineryFinalSampleRate == old(sp.Data.MetaRefineryFinalSampleRate) && sp.Data.MetaTraceID == old(sp.Data.MetaTraceID)
+//@   loop 1 invariant[seen-in-attrs] forall q string :: seen(q) ==> in(attrs, q)
+//@   loop 1 invariant[seen-set] forall q string :: seen(q) ==> in(sp.Data.memoizedFields, q) && isString(sp.Data.memoizedFields[q]) && anyString(sp.Data.memoizedFields[q]) == attrs[q]
+//@   loop 1 invariant[unseen-kept] forall q string :: !seen(q) ==> in(sp.Data.memoizedFields, q) == in(old(sp.Data.memoizedFields), q) && sp.Data.memoizedFields[q] == old(sp.Data.memoizedFields)[q]
+//@   modifies sp.Data
+
+//@ contract collect.(*InMemCollector).ProcessSpanImmediately props C16
+//@   requires i != nil && sp != nil && sp.Event != nil && owns(sp.Event) && len(i.workers) > 0
+//@   requires[workers-built] forall k int :: 0 <= k && k < len(i.workers) ==> i.workers[k] != nil
+//@   domain[additional-attributes-are-user-fields] attrsAreUserFields(i.Config.GetAdditionalAttributes())
+//@   domain[rates-in-range] sp.SampleRate < 1<<31
+//@   let w = i.workers[i.getWorkerIDForTrace(sp.TraceID)]
+//@   let sc = w.sampleCache
+//@   let found = result2of(sc.CheckSpan(sp))
+//@   let rec = result0of(sc.CheckSpan(sp))
+//@   let srKeep = result1of(i.StressRelief.GetSampleRate(sp.TraceID))
+//@   let srRate = result0of(i.StressRelief.GetSampleRate(sp.TraceID))
+//@   let rate = ite(found, rec.Rate(), srRate)
+//@   domain[rate-in-range] 1 <= rate && rate < 1<<32
+//@   ensures[always-processed] processed
+//@   ensures[decision-follows-record-or-rule] keep == ite(found, rec.Kept(), srKeep)
+//@   ensures[new-decision-recorded-once] !found ==> recN(sc) == old(recN(sc)) + 1 && recKept(sc) == srKeep && recID(sc) == sp.TraceID && recRate(sc) == toInt(srRate)
+//@   ensures[known-decision-not-rerecorded] found ==> recN(sc) == old(recN(sc))
+//@   ensures[kept-goes-upstream-exactly-once-marked] keep ==> enqN(i.Transmission) == old(enqN(i.Transmission)) + 1 && toInt(enqLast(i.Transmission)) == toInt(sp.Event) && enqStressed(i.Transmission) && enqKey(i.Transmission) == old(sp.APIKey) && enqDataset(i.Transmission) == old(sp.Dataset) && enqHost(i.Transmission) == old(sp.APIHost)
+//@   ensures[kept-not-a-probe] keep && !(old(sp.Data.MetaRefineryProbe.HasValue) && old(sp.Data.MetaRefineryProbe.Value)) ==> !enqProbe(i.Transmission)
+//@   ensures[kept-rate-is-client-times-trace] keep && !i.Config.GetIsDryRun() ==> enqRate(i.Transmission) == toInt(clientRate(old(sp.SampleRate))) * toInt(rate)
+//@   ensures[dropped-goes-nowhere] !keep ==> enqN(i.Transmission) == old(enqN(i.Transmission)) && owns(sp.Event)
+//@   ensures[never-buffered] addedN(i) == old(addedN(i))
+//@   modifies sp.SampleRate, sp.Data, all(recN), all(recKept), all(recID), all(recRate), all(enqN), all(enqLast), all(enqHost), all(enqKey), all(enqDataset), all(enqProbe), all(enqStressed), all(enqRate), all(owns)
+
+// ---- C05 / C06 / C01: a span arriving after its trace was decided follows that decision.
+// Forwarded (exactly once) iff the trace was kept or dry run is on; never for a dropped trace.
+//@ spec attrsAreUserFields(m map[string]string) bool := forall k string :: in(m, k) ==> !isMetaKey(k) && k != config.DryRunFieldName && k != "meta.dryrun.sample_rate"
+//@ contract collect.(*InMemCollector).dealWithSentTrace props C05,C06,C01
+//@   requires i != nil && sp != nil && sp.Event != nil && owns(sp.Event) && tr != nil
+//@   domain[additional-attributes-are-user-fields] attrsAreUserFields(i.Config.GetAdditionalAttributes())
+//@   domain[rates-in-range] sp.SampleRate < 1<<31 && 1 <= tr.Rate() && tr.Rate() < 1<<32
+//@   domain[counts-in-range] tr.SpanCount() < 1<<62 && tr.SpanEventCount() < 1<<62 && tr.SpanLinkCount() < 1<<62 && tr.DescendantCount() < 1<<62
+//@   let dry = i.Config.GetIsDryRun()
+//@   let keep = tr.Kept()
+//@   let attrs = i.Config.GetAdditionalAttributes()
+//@   ensures[forwarded-exactly-once-iff-kept-or-dry-run] enqN(i.Transmission) == old(enqN(i.Transmission)) + ite(keep || dry, 1, 0) && (keep || dry ==> toInt(enqLast(i.Transmission)) == toInt(sp.Event))
+//@   ensures[dropped-keeps-ownership] !(keep || dry) ==> owns(sp.Event)
+//@   ensures[destination-unchanged] sp.APIKey == old(sp.APIKey) && sp.Dataset == old(sp.Dataset) && sp.APIHost == old(sp.APIHost)
+//@   ensures[dry-run-carries-the-decision] dry ==> in(sp.Data.memoizedFields, config.DryRunFieldName) && isBool(sp.Data.memoizedFields[config.DryRunFieldName]) && anyBool(sp.Data.memoizedFields[config.DryRunFieldName]) == keep
+//@   ensures[dry-run-keeps-client-rate] dry ==> clientRate(sp.SampleRate) == clientRate(old(sp.SampleRate))
+//@   ensures[kept-rate-is-client-times-trace] !dry && keep ==> toInt(sp.SampleRate) == toInt(clientRate(old(sp.SampleRate))) * toInt(tr.Rate())
+//@   ensures[hostname] (keep || dry) && i.hostname != "" ==> sp.Data.MetaRefineryLocalHostname == i.hostname
+//@   ensures[late-reason] (keep || dry) && i.Config.GetAddRuleReasonToTrace() ==> sp.Data.MetaRefinerySendReason == TraceSendLateSpan && (len(keptReason) == 0 ==> sp.Data.MetaRefineryReason == "late arriving span")
+//@   ensures[additional-attributes] (keep || dry) ==> (forall k string :: in(attrs, k) ==> in(sp.Data.memoizedFields, k) && isString(sp.Data.memoizedFields[k]) && anyString(sp.Data.memoizedFields[k]) == attrs[k])
+//@   ensures[late-root-counts] keep && sp.IsRoot && i.Config.GetAddCountsToRoot() ==> sp.Data.MetaSpanCount == toInt(tr.SpanCount()) && sp.Data.MetaSpanEventCount == toInt(tr.SpanEventCount()) && sp.Data.MetaSpanLinkCount == toInt(tr.SpanLinkCount()) && sp.Data.MetaEventCount == toInt(tr.DescendantCount())
+//@   ensures[late-root-span-count-only] keep && sp.IsRoot && !i.Config.GetAddCountsToRoot() && i.Config.GetAddSpanCountToRoot() ==> sp.Data.MetaSpanCount == toInt(tr.DescendantCount())
+//@   modifies sp.SampleRate, sp.Data, all(enqN), all(enqLast), all(enqHost), all(enqKey), all(enqDataset), all(enqProbe), all(enqStressed), all(enqRate), all(owns)
 
 // ---- C15: stress relief switches with hysteresis on a bounded stress level
 
